@@ -10,9 +10,9 @@ scratch=$(mktemp -d /tmp/seedchk.XXXXXX)
 rsync -a --exclude .git /repo/ "$scratch/"
 demo="$scratch/$pkg/zz_seed_demo${k}_test.go"
 cp "$out/demo${k}_test.go" "$demo"
-( cd "$scratch/$pkg" && go test -vet=off -count=1 -run 'Seed|Demo|Mutant|Break' "$@" . >"$scratch/demo_clean.log" 2>&1 ); clean=$?
+( cd "$scratch/$pkg" && env $DEMO_ENV go test -vet=off -count=1 -run 'Seed|Demo|Mutant|Break' "$@" . >"$scratch/demo_clean.log" 2>&1 ); clean=$?
 ( cd "$scratch" && patch -p1 -s < "$out/patch${k}.diff" ) || { echo "{\"id\":\"$id\",\"k\":$k,\"error\":\"patch does not apply\"}"; rm -rf "$scratch"; exit 3; }
-( cd "$scratch/$pkg" && go test -vet=off -count=1 -run 'Seed|Demo|Mutant|Break' "$@" . >"$scratch/demo_mut.log" 2>&1 ); mut=$?
+( cd "$scratch/$pkg" && env $DEMO_ENV go test -vet=off -count=1 -run 'Seed|Demo|Mutant|Break' "$@" . >"$scratch/demo_mut.log" 2>&1 ); mut=$?
 rm -f "$demo"
 ( cd "$scratch" && go build ./... && go test -vet=off -count=1 ./... >"$scratch/suite.log" 2>&1 ); suite=$?
 cd /verif
